@@ -19,6 +19,15 @@ type SubstCase struct {
 
 func init() { registerReplay("c08-subst", checkC08) }
 
+// c08Exc: in the sibling template an exception on the first occurrence must differ from the
+// template's own (Classpath) one, otherwise two occurrences would be the same term.
+func c08Exc(e string) string {
+	if e == "Classpath-exception-2.0" {
+		return ""
+	}
+	return e
+}
+
 func withExcText(s, exc string) string {
 	if exc == "" {
 		return s
@@ -50,6 +59,26 @@ func checkC08(c SubstCase) Outcome {
 	case "allowed":
 		r1, r2 = Satisfies(c.Probe, []string{t1}), Satisfies(c.Probe, []string{t2})
 		d1, d2 = fmt.Sprintf("Satisfies(%q, {%q})", c.Probe, t1), fmt.Sprintf("Satisfies(%q, {%q})", c.Probe, t2)
+	case "embedded-siblings": // ONE occurrence is swapped while its siblings (with exception, with '+') keep the first spelling
+		tmpl := func(x, y, z string) string {
+			if c.Pair == "only" {
+				z += "+" // X / X-only take a '+'; X+ / X-or-later already carry theirs
+			}
+			return fmt.Sprintf("ISC AND (%s OR %s WITH Classpath-exception-2.0 OR %s) AND Zlib AND (0BSD OR ISC)", withExcText(x, c08Exc(c.Exc1)), y, z)
+		}
+		e1 := tmpl(c.S1, c.S1, c.S1)
+		r1 = Satisfies(e1, []string{"ISC", "Zlib", c.Probe})
+		d1 = fmt.Sprintf("Satisfies(%q, {ISC, Zlib, %q})", e1, c.Probe)
+		for k := 0; k < 3; k++ {
+			sp := []string{c.S1, c.S1, c.S1}
+			sp[k] = c.S2
+			e2 := tmpl(sp[0], sp[1], sp[2])
+			r2 = Satisfies(e2, []string{"ISC", "Zlib", c.Probe})
+			d2 = fmt.Sprintf("Satisfies(%q, {ISC, Zlib, %q})", e2, c.Probe)
+			if r1.Panic != "" || r2.Panic != "" || r1.IsErr || r2.IsErr || r1.OK != r2.OK {
+				break
+			}
+		}
 	default: // embedded in a compound expression, probe and a neutral id allowed
 		e1 := fmt.Sprintf("(ISC AND %s) OR (Zlib AND (%s))", t1, t1)
 		e2 := fmt.Sprintf("(ISC AND %s) OR (Zlib AND (%s))", t2, t2)
@@ -129,9 +158,12 @@ func TestC08_Sweep(t *testing.T) {
 			}
 			probes = append(probes, tb.UnrelatedIDs()[:3]...)
 			for _, probe := range probes {
-				for _, ctx := range []string{"expr", "allowed", "embedded"} {
+				for _, ctx := range []string{"expr", "allowed", "embedded", "embedded-siblings"} {
 					for ei, ex := range [][2]string{{"", ""}, {exc, exc}, {exc, ""}, {"", exc}, {exc, exc2}} {
 						if ctx == "embedded" && ei > 1 {
+							continue
+						}
+						if ctx == "embedded-siblings" && ei != 0 && ei != 1 && ei != 3 {
 							continue
 						}
 						c := SubstCase{X: x, Pair: pair, S1: s1, S2: s2, Probe: withExcText(probe, ex[1]), Exc1: ex[0], Ctx: ctx}
